@@ -14,13 +14,13 @@ from ..models import tptref as tr
 ID = 'C07'
 RULE = ('irreducible row-stochastic matrices with rows on the simplex lattice: n=3 denominator 4 (2072 chains), n=4 '
         'denominator 2 (Q: every 3rd; T: all + denominator 3 every 5th) x all disjoint non-empty (sources,sinks) x '
-        'containers {ndarray,csr,csc,coo,lil} (sparse on every 2nd chain in Q) x lag {1,2.5}; state=(T,A,B,container); '
+        'containers {ndarray (C, Fortran-ordered, transposed view, strided view), csr,csc,coo,lil} (sparse on every 2nd chain in Q) x lag {1,2.5}; state=(T,A,B,container); '
         'non-trivial = non-reversible or periodic chain with >=1 intermediate state')
 ASSUMPTIONS = ['residual tolerance 1e-9 on the first-step equations (direct linear solves of well-conditioned small systems)',
                'scipy sparse matrix containers csr/csc/coo/lil']
-GUARDS = {'nonreversible': 500, 'multi_sink': 500, 'multi_source': 500, 'sparse': 500, 'periodic': 10, 'intermediate': 500}
+GUARDS = {'nonreversible': 500, 'multi_sink': 500, 'multi_source': 500, 'sparse': 500, 'dense_layouts': 200, 'periodic': 10, 'intermediate': 500}
 NSH = {'quick': 64, 'thorough': 256}
-CONTAINERS = ('ndarray', 'csr', 'csc', 'coo', 'lil')
+CONTAINERS = ('ndarray', 'ndarrayF', 'ndarrayT', 'ndarrayS', 'csr', 'csc', 'coo', 'lil')
 
 
 def chains(tier):
@@ -56,7 +56,17 @@ def shards(tier, seed):
 
 
 def wrap(T, cont):
-    return T.copy() if cont == 'ndarray' else getattr(sp, cont + '_matrix')(T)
+    if cont == 'ndarray':
+        return T.copy()
+    if cont == 'ndarrayF':
+        return np.asfortranarray(T)
+    if cont == 'ndarrayT':
+        return np.ascontiguousarray(T.T).T            # transposed view (Fortran strides, does not own its data)
+    if cont == 'ndarrayS':
+        base = np.zeros((2 * len(T), 2 * len(T)))
+        base[::2, ::2] = T
+        return base[::2, ::2]                          # non-contiguous strided view
+    return getattr(sp, cont + '_matrix')(T)
 
 
 def pi_of(T):
@@ -72,7 +82,7 @@ def check_case(case, ctx, pairs=None):
     cont = case['container']
     n = len(T)
     M = wrap(T, cont)
-    ctag = 'dense' if cont == 'ndarray' else 'sparse'
+    ctag = 'dense' if cont.startswith('ndarray') else 'sparse'
     pi = pi_of(T)
     rev = np.abs(pi[:, None] * T - (pi[:, None] * T).T).max() < 1e-12
     per = bool(np.any(np.abs(np.abs(np.linalg.eigvals(T)) - 1) < 1e-9) and
@@ -93,8 +103,10 @@ def check_case(case, ctx, pairs=None):
             ctx.guard('multi_source')
         if inter > 0:
             ctx.guard('intermediate')
-        if cont != 'ndarray':
+        if not cont.startswith('ndarray'):
             ctx.guard('sparse')
+        elif cont != 'ndarray':
+            ctx.guard('dense_layouts')
         # committors
         try:
             q = np.asarray(tpt.committors(M, A, B)).astype(float).ravel()
@@ -159,7 +171,7 @@ def run_shard(sh, ctx):
         for cont in CONTAINERS:
             if tier == 'quick' and cont != 'ndarray':
                 jj = j // NSH[tier]
-                if jj % 2 or (cont in ('csc', 'coo') and jj % 4):
+                if jj % 2 or (cont in ('csc', 'coo', 'ndarrayS') and jj % 4):
                     continue
             check_case({'T': T.tolist(), 'container': cont}, ctx, pairs=pairs)
         if j % 257 == 0:
